@@ -1,6 +1,7 @@
 """Runs the real, rendered runner.sh unmodified inside a private user + mount namespace with a
 synthetic root (so /scripts, /results, /data, /home/atlas, /opt/cms ... exist exactly as the
 script expects) and stub tools on PATH (harness/stubs)."""
+import hashlib
 import json
 import os
 import shutil
@@ -85,7 +86,10 @@ def _read_dests(root):
                     mode = None
                 elif mode == "in" and ln.strip():
                     inputs.append(ln.strip())
-            out[d] = {"run": run, "inputs": inputs, "converted": conv}
+            st = os.stat(p)
+            # the file's identity: a rewritten, truncated, touched or replaced file differs from the one that was there before
+            ident = "%d:%d:%s" % (st.st_mtime_ns, st.st_size, hashlib.sha1(open(p, "rb").read()).hexdigest()[:12])
+            out[d] = {"run": run, "inputs": inputs, "converted": conv, "ident": ident}
     return out
 
 
